@@ -4,6 +4,7 @@ import (
 	_ "embed"
 	"encoding/json"
 	"fmt"
+	"go/token"
 	"go/types"
 	"os"
 	"sort"
@@ -153,6 +154,7 @@ func c10SharedConfig(p *load.Program, r *oblig.Report) {
 func runC10(p *load.Program, r *oblig.Report) {
 	c10SharedConfig(p, r)
 	c10GoroutineResults(p, r)
+	c10ClosedBatch(p, r)
 	// batch.err is not guarded by a lock: it is published by the close of batch.done (store before close, loads after
 	// the receive), which is C01.R2
 	shareRules(r, "C10", "C10.R7 a batch result is handed over through the close of its done channel", func(sub *oblig.Report) { c01WaitBeforeRead(p, sub) })
@@ -663,4 +665,40 @@ func c10GoroutineResults(p *load.Program, r *oblig.Report) {
 	}
 	sort.Strings(globals)
 	r.Check(len(globals) == 0, "C10.R9 no shared pseudo-random source", "no package-level *math/rand.Rand", "-", "rand.New(...) results stay local to one goroutine", strings.Join(globals, ", "))
+}
+
+// c10ClosedBatch: Batch.close hands the connection's read lock back. The message set reader of the batch still points
+// at the connection's buffer, so a later (or concurrent) ReadMessage on the closed batch must not get as far as the
+// reader: close leaves the batch with a non-nil sticky error on every path (readMessage returns it first).
+func c10ClosedBatch(p *load.Program, r *oblig.Report) {
+	const rule = "C10.R10 a closed Batch no longer touches the connection"
+	cl := p.Func("", "(*Batch).close")
+	rm := p.Func("", "(*Batch).readMessage")
+	if cl == nil || rm == nil {
+		r.Lost(rule, "kafka.(*Batch).close / readMessage")
+		return
+	}
+	// readMessage returns batch.err first when it is set
+	first := false
+	if len(rm.Blocks) > 0 {
+		_, ci := an.IfCond(rm.Blocks[0])
+		first = ci != nil && ci.Edge(token.NEQ) >= 0 && an.IsNilConst(ci.Y) && strings.HasSuffix(clean(an.Shape(ci.X)), ".err")
+	}
+	r.Check(first, rule, "kafka.(*Batch).readMessage returns the batch's sticky error before it reads anything", p.Pos(rm.Pos()), "if err = batch.err; err != nil { return }", "not the first thing it does")
+	edge := func(from *ssa.BasicBlock, si int) bool {
+		_, ci := an.IfCond(from)
+		if e := ci.Edge(token.NEQ); e >= 0 && an.IsNilConst(ci.Y) && isLoadOfField(ci.X, "Batch", "err") {
+			return si != e // the error is already set on that edge
+		}
+		return true
+	}
+	ok, bad := an.MustPass(cl, an.EntryPoint(cl), func(i ssa.Instruction) bool {
+		st, isSt := fieldStoreIs(i, "Batch", "err")
+		return isSt && !an.IsNilConst(st.Val)
+	}, edge)
+	where := ""
+	if bad != nil {
+		where = "the exit at " + p.Pos(bad.Pos()) + " leaves batch.err nil: ReadMessage on the closed batch would go on to read from the connection's buffer without its lock"
+	}
+	r.Check(ok, rule, "kafka.(*Batch).close leaves a sticky error behind on every path", p.Pos(cl.Pos()), "if batch.err == nil { batch.err = io.EOF }", where)
 }
